@@ -256,6 +256,10 @@ def run(ctx):
                             ["%s:%d" % (f.file, f.line)])
 
     exit_code_tables(ctx, "R06-b")
+    # the emitter of a session is built once: the json emitter collects the mismatches of all inputs until the footer, so an
+    # emitter replaced between two inputs reports only the later ones (session-state write discipline, shared with C15)
+    import c15
+    c15.session_state(ctx, "R06-g")
     check_forces_diff(ctx, "R06-c")
     has_diff_faithful(ctx, "R06-d")
     single_feed(ctx, "R06-e")
